@@ -90,6 +90,9 @@ func denseBatch(a wsp.Arch, arch int) AOp {
 	return op
 }
 
+// LongJump is a clock advance of 6.3 years (more than 2^31/12 seconds).
+const LongJump = int64(200000000)
+
 func c01Gen(archs []wsp.Arch) func(AState, int) []AOp {
 	rmax := archs[len(archs)-1].Ret()
 	return func(st AState, d int) []AOp {
@@ -104,6 +107,10 @@ func c01Gen(archs []wsp.Arch) func(AState, int) []AOp {
 		ops = append(ops, denseBatch(archs[0], 0))
 		for _, d := range dedupAges([]int64{1, int64(archs[len(archs)-1].Step), archs[0].Ret(), rmax + 1}, 1, 1<<40) {
 			ops = append(ops, AOp{Kind: "ADV", D: d})
+		}
+		if d == 1 {
+			// a metric that goes dormant for years: the base interval ends up > 2^31/12 slots away
+			ops = append(ops, AOp{Kind: "ADV", D: LongJump})
 		}
 		return ops
 	}
@@ -129,6 +136,11 @@ func c01Full(archs []wsp.Arch) func(AState) []AOp {
 				}
 			}
 			ops = append(ops, denseBatch(a, i))
+			// future-dated points in a batch to a named archive (a sender with a fast clock): the ring stores them
+			// under their own interval, and a fetch must not report them for the older interval they displaced
+			for _, fa := range dedupAges([]int64{-1, -s, -(a.Ret() - s), -(a.Ret() - 1)}, -1<<40, 0) {
+				ops = append(ops, AOp{Kind: "WB", Arch: i, Ages: []int64{1, fa}, Vals: []float64{1, -2}})
+			}
 		}
 		// clock-global variants: ages inside archive 0's retention route trivially to archive 0
 		for _, age := range dedupAges([]int64{0, 1, archs[0].Ret() - 1}, 0, archs[0].Ret()) {
